@@ -47,6 +47,19 @@ class WriterModel:
             rep.unknown('M9', 'with_ending', self.with_ending.where(), 'does not return a MultiLineWriter aggregate')
             return
         self.ctor = dict(agg[3])
+        # fields grouped into a private struct (`framing: Framing { capacity, line_ending }`) count as fields of the writer,
+        # addressed by their own (innermost) name
+        self.nest = {}
+        for f_ in list(fields):
+            h_ = type_head(f_['ty'])
+            v_ = self.ctor.get(f_['name'])
+            if h_ in cad.adts and h_ != MLW and cad.adts[h_].get('kind') == 'Struct' and v_ is not None and norm(v_)[0] == 'adt' and in_module_of_path(cad, h_, MLW):
+                for g_ in adt_fields(cad, h_) or []:
+                    if g_['name'] not in self.ctor:
+                        fields = fields + [g_]
+                        self.ctor[g_['name']] = dict(norm(v_)[3]).get(g_['name'])
+                        self.nest[g_['name']] = f_['name']
+        self.fields = fields
         self.f_inner = [f_['name'] for f_ in fields if f_['ty'].startswith(BUFW + '<')]
         self.f_le = [f_['name'] for f_ in fields if f_['ty'].replace(' ', '') in ('alloc::vec::Vec<u8>', 'alloc::boxed::Box<[u8]>', 'alloc::sync::Arc<[u8]>', 'alloc::string::String', 'alloc::boxed::Box<str>')]
         usz = [f_['name'] for f_ in fields if f_['ty'] == 'usize']
@@ -112,7 +125,7 @@ class WriterModel:
             if t[2] != 'entry':
                 return None
             t = t[1]
-        n = self_field_name(t)
+        n = self.fname(t)
         if n == self.f_written and t[0] != 'ref':
             return 'W'
         if n == self.f_cap and t[0] != 'ref':
@@ -121,9 +134,18 @@ class WriterModel:
             a = peel(t[2][0])
             if a == ('param', 2):
                 return 'N'
-            if self_field_name(t[2][0]) == self.f_le:
+            if self.fname(t[2][0]) == self.f_le:
                 return 'E'
         return None
+
+    def fname(self, t):
+        """role name of the writer field that term t reads: the innermost name for fields grouped into a private struct"""
+        n_ = self_field_name(t)
+        if self.nest and n_ in set(self.nest.values()):
+            l_ = leaf_field_name(t)
+            if l_ in self.nest:
+                return l_
+        return n_
 
     def lin(self, t):
         return L.lin_of(self.desat(norm(t)), self.atom)
@@ -446,7 +468,7 @@ def rule_M4_M5_M6(m, rep, want=('M4', 'M5', 'M6'), zero_store_ok=False):
         rep.ob('M4', 'metric-whole-first', ok1, body.where(b1),
                'first buffered write passes the `buf` parameter unchanged' if ok1 else
                'first buffered write does not pass the whole `buf` parameter: %s' % fmt(a1n))
-        ok2 = self_field_name(a2n) == m.f_le and not any(x[0] == 'index' or (x[0] == 'call' and 'index' in str(x[1]).lower())
+        ok2 = m.fname(a2n) == m.f_le and not any(x[0] == 'index' or (x[0] == 'call' and 'index' in str(x[1]).lower())
                                                            for x in walk(a2n))
         rep.ob('M4', 'line-ending-whole-second', ok2, body.where(b2),
                'second buffered write passes the whole line ending' if ok2 else
